@@ -14,10 +14,15 @@ NKEYS = 8
 def record_session(binary, name, steps, seed=1, gates=False, timeout=240, keys=None):
     """returns dict(points, events, root, work, final_ok)"""
     work = common.scratch("crash-" + name)
-    root = os.path.join(work, "d", "case0")
+    dbase = os.path.join(work, "d")
+    if any(st.get("directio") for st in steps):
+        # O_DIRECT is refused by tmpfs: the recorded session runs on a block-device file system (the crash images do not need one)
+        import tempfile
+        dbase = tempfile.mkdtemp(prefix="verif-dio-", dir=os.environ.get("VERIF_DISK_SCRATCH", "/var/tmp"))
+    root = os.path.join(dbase, "case0")
     trace = os.path.join(work, "trace.ndjson")
     keys = keys or dbrun.key_bytes()
-    inp = {"keys": [k.hex() for k in keys], "dir": os.path.join(work, "d"), "cases": [{"steps": steps}], "gates": gates, "seed": seed}
+    inp = {"keys": [k.hex() for k in keys], "dir": dbase, "cases": [{"steps": steps}], "gates": gates, "seed": seed}
     in_path = os.path.join(work, "in.json")
     with open(in_path, "w") as f:
         json.dump(inp, f)
@@ -32,6 +37,8 @@ def record_session(binary, name, steps, seed=1, gates=False, timeout=240, keys=N
     sys = crash.parse(slog)
     points, events, model = crash.crash_points(sys, root, trace)
     os.remove(slog)
+    if dbase != os.path.join(work, "d"):
+        shutil.rmtree(dbase, ignore_errors=True)
     return {"points": points, "events": events, "root": root, "work": work, "rc": rc, "keys": keys, "model": model, "err": err}
 
 
